@@ -40,7 +40,7 @@ pub fn run(case: &Value, ctx: &Ctx) -> Outcome {
     // (operands are not emitted separately; they are identifiable because at most MaxOps are applied)
     // simpler and exact: recompute each candidate operand set and pick the one reproducing `final`.
     let scale_opts = [1.0 / 3.0, 2.0, 1000.0, 1.0 / 10000.0];
-    let mono_opts = [(0.0, 5.0), (9.0, 0.5)];
+    let mono_opts = [(0.0, 5.0), (9.0, 0.5), (1e16, 3e15)];
     fn apply(ctx: &Ctx, shape: &mut Vec<usize>, x: &mut Vec<f64>, op: &str, s: f64, m: (f64, f64), folded_by_tool: &mut bool) {
         match op {
             "fold0" => {
